@@ -1794,7 +1794,8 @@ impl Prop for C12 {
             relaxed_ok && same_nonempty_buckets(&g, &w, &d.path)
           } else if cand == "date_histogram.quarter-day31" {
             // independent of the layout: a 31st of May is involved, and by month all is right
-            relaxed_ok && sees_may31(&node, &docs)
+            // (a per-segment threshold would leave the one-segment layout right)
+            relaxed_ok && !single_ok && sees_may31(&node, &docs)
           } else {
             single_ok && relaxed_ok && built[li].segs.len() > 1
           }
